@@ -63,3 +63,78 @@ def near(rng, ref, w, nmax=8, tmax=8, lat=LAT):
 
 def window(rng):
     return rng.choice([Fr(0), Fr(1, 32), Fr(1, 16), Fr(1, 8), Fr(1, 4), Fr(1, 2), Fr(1), Fr(3)])
+
+
+# ---------------------------------------------------------------------------------------------
+# the caller's array dtype.  Every validator of the library accepts integer and single-precision arrays (they are what
+# `np.arange`, whole-second annotations, MIDI pitch lists and float32 feature pipelines produce); a result must depend
+# on the VALUES only.  A dtype other than float64 is honoured only when it represents every value exactly, so that the
+# code receives the same numbers in another container (otherwise the array stays float64).
+
+DTYPES = ("int64", "int32", "float32")
+
+
+def exact_in(values, dtype):
+    """can every value (Fractions / nested lists of Fractions) be stored in `dtype` without changing it?"""
+    if dtype is None or dtype in ("float64", "float"):
+        return True
+    if isinstance(values, (list, tuple)):
+        return all(exact_in(v, dtype) for v in values)
+    q = Fr(values)
+    if dtype in ("int64", "int32"):
+        return q.denominator == 1 and abs(q) < (2 ** 31 if dtype == "int32" else 2 ** 62)
+    if dtype == "float32":
+        return Fr(float(np.float32(float(q)))) == q
+    raise ValueError(dtype)
+
+
+def arr_as(x, dtype=None, shape=None):
+    """`arr(x)` stored as `dtype` when that is exact for every value (see above); float64 otherwise"""
+    a = np.asarray(fl(x), dtype=float)
+    if shape is not None:
+        a = a.reshape(shape)
+    if dtype in DTYPES and exact_in(x, dtype):
+        a = a.astype(dtype)
+    return a
+
+
+def pick_dtypes(rng, sides=("ref", "est"), p_int=0.75, float32=True):
+    """a dtype (or None = float64) per side; at least one side is not float64.  float32=False: integer dtypes only (for
+    checks that compare real-valued scores to 1e-9: arithmetic on float32 arrays is legitimately single precision)"""
+    while True:
+        out = {}
+        for s in sides:
+            u = rng.random()
+            if u < p_int * 0.6:
+                out[s] = "int64"
+            elif u < p_int:
+                out[s] = "int32"
+            elif u < p_int + 0.12 and float32:
+                out[s] = "float32"
+        if out:
+            return out
+
+
+def whole_events(rng, nmax=8, tmax=12):
+    """(ref, est, window): reference events annotated on whole seconds (what ends up in an integer array), estimates at
+    non-integral offsets around them or on whole seconds too, windows that are and are not whole numbers; the offsets
+    sit on both sides of the window and exactly on it"""
+    n = min(nmax, rng.choice([1, 2, 3, 4, 5, 6, 8]))
+    ref = sorted(Fr(rng.randint(0, tmax)) for _ in range(n))
+    if rng.random() < 0.6:
+        ref = sorted(set(ref))
+    w = rng.choice([Fr(1, 2), Fr(1, 2), Fr(1, 4), Fr(3, 8), Fr(3, 4), Fr(1), Fr(3, 2), Fr(1, 16), Fr(5, 4), Fr(2)])
+    offs = [Fr(-22, 32), Fr(-19, 32), Fr(-13, 32), Fr(-10, 32), Fr(10, 32), Fr(13, 32), Fr(19, 32), Fr(22, 32),
+            Fr(-35, 32), Fr(35, 32), Fr(-51, 32), Fr(51, 32), w, -w, w + Fr(1, 32), -w - Fr(1, 32)]
+    est = []
+    kind = rng.random()
+    for r in ref:
+        if rng.random() < 0.15:
+            continue
+        if kind < 0.25:
+            est.append(max(Fr(0), r + rng.choice([-2, -1, 0, 0, 1, 2])))       # whole seconds on both sides
+        else:
+            est.append(max(Fr(0), r + rng.choice(offs)))
+    for _ in range(rng.choice([0, 0, 1, 2])):
+        est.append(Fr(rng.randint(0, tmax * 32), 32) if kind >= 0.25 else Fr(rng.randint(0, tmax)))
+    return ref, sorted(est)[:nmax + 2], w
